@@ -52,7 +52,8 @@ def prefixes(tier, rnd):
                 yield ("edit-insert", base[:i] + c + base[i:] + " m", None)
             if i < len(base):
                 yield ("edit-delete", base[:i] + base[i + 1:] + " m", None)
-                for c in SIGMA + ["R", "(", "6"]:
+                for c in SIGMA + ["R", "(", "6", "\t", "\u00a0", "\u2003", "\x0b", "\x0c", "\n", "\r\n", "\\t", "\\n", "\\x20", "\\u{20}", "  ",
+                                  "\u3000", "\u200b", "_", "-", "=", "{", "<", "０", "٥", ";", ","]:
                     yield ("edit-subst", base[:i] + c + base[i + 1:] + " m", None)
     # numeric boundaries
     nums = ["0", "1", "9", "10", "4294967294", "4294967295", "4294967296", "4294967300", "9999999999", "10000000000",
@@ -148,7 +149,7 @@ def work(job):
             res["violations"].append({"signature": "C12.%s|%s|%s" % (clause, cls.split("-")[0], shape(msg[:-len(REST)] if msg.endswith(REST) else msg)),
                                       "detail": {"message": msg, "class": cls, "model": want,
                                                  "hook": tr.get(o), "reported": o in rep, "token": tok.get(o)},
-                                      "case": {"cases": [[cls, msg, None]], "idbase": idbase}})
+                                      "case": {"cases": [[cls, msg, None]] * (3 if cls.startswith("dup-") else 1), "idbase": idbase}})
     # every inserted token satisfies the rule and the documented regex
     after = fo.after
     for t in fo.tokens:
@@ -193,6 +194,16 @@ def main(tier):
         jobs.append((built, "%d-%d" % (ck.seed, n), low[i:i + PER_FILE], bases[n % len(bases)]))
     for n, i in enumerate(range(0, len(high), PER_FILE)):
         jobs.append((built, "%d-high%d" % (ck.seed, n), high[i:i + PER_FILE], 0))
+    # the same literal several times in one file (a statement copied and pasted together with its token, or without one): the
+    # verdict on a statement depends on its own message only, whatever precedes it in the file
+    pool = [c for c in low if c[2] is None]
+    for n in range(2 if tier == "quick" else 12):
+        some = rnd.sample(pool, min(len(pool), 150)) + [("numeric", "[ref: %d] copied and pasted" % k, None) for k in (3, 4, 5)]
+        present = [c for c in pool if model(c[1]) is not None]
+        some += rnd.sample(present, min(len(present), 100))
+        group = [("dup-" + c[0], c[1], c[2]) for c in some for _ in range(rnd.choice([2, 2, 3]))]
+        rnd.shuffle(group)
+        jobs.append((built, "%d-dup%d" % (ck.seed, n), group, 0))
     ck.extra["files"] = len(jobs)
     for res in frame.pmap(work, jobs):
         ck.absorb(res)
